@@ -111,6 +111,17 @@ CLAIMED.update({
   design="DESIGN.md §4.C12"),
 })
 
+CLAIMED.update({
+ "C10": dict(
+  text="Deductive proof for formatter.go of (a) independence of earlier calls: whatever state an earlier (also failed) call left, FormatValue starts the traversal from depth 0 and an empty buffer and leaves that state on return "
+       "(strings.Builder modelled by its accumulated text); (b) balanced depth bookkeeping in every format* function on normal exits; (c) termination of the mutually recursive traversal by the variant (maximum - depth, function rank) — "
+       "which holds for multi-item sequences and FAILS for single-item sequences and association values (recorded known finding: a self-containing singleton overflows the stack; witnessed on the real code); "
+       "(d) a zero-annotation runtime-safety sweep (nil, index, slice, type assertion) over all format* functions.",
+  note="NOT decided deductively (no contract within reach): that ParseSource(FormatValue(v)) reproduces v and the text (element order, kinds, key/value pairing, numeric literal languages such as exponent floats) — this needs regexp/strconv semantics and a formatter–parser pair proof; "
+       "no bounded stand-in is registered yet. Assumed: reflect accessors pure and non-panicking, getters return one value, the reflective HasNext call yields a bool (trusted runtime check), strings.Builder contracts.",
+  design="DESIGN.md §4.C10"),
+})
+
 NOT_YET = {}
 
 TECH = "contract-based deductive verification: weakest-precondition style VCs generated from go/ssa of /repo, contracts in //go:build verif comment files, discharged by z3 5.1 / z3 4.8 / cvc5"
